@@ -1,9 +1,18 @@
 package sim
 
-import "testing"
+import (
+	"os"
+	"runtime"
+	"testing"
+)
 
 // postRun: end-of-run oracles that need the whole process view (locks, goroutines, sockets).
 func (w *SrvWorld) postRun(rec *RunRecord) {
+	if os.Getenv("VERIF_DUMP") != "" {
+		buf := make([]byte, 1<<20)
+		n := runtime.Stack(buf, true)
+		os.Stderr.Write(buf[:n])
+	}
 	held, waiting := lockState()
 	for _, h := range held {
 		w.K.Violate(&Violation{Property: "C18", Class: "lock-held-at-idle", Key: kv("site", h), Detail: "lock still held at the end of the run, acquired at " + h})
@@ -25,4 +34,11 @@ func (w *SrvWorld) postRun(rec *RunRecord) {
 	}
 }
 
-func runOtherWorld(t *testing.T, k *Kernel, p *Plan, rec *RunRecord, keepLog bool) bool { return false }
+func runOtherWorld(t *testing.T, k *Kernel, p *Plan, rec *RunRecord, keepLog bool) bool {
+	switch p.World {
+	case "frame":
+		runFrameWorld(t, k, p, rec)
+		return true
+	}
+	return false
+}
